@@ -50,7 +50,7 @@ def run(tier, replay=None):
     for files in corpus.TWIN_FILES:
         cut_inputs.append(files)
         hc.append({"id": len(hc) + 1, "mode": "runs", "files": files, "base": "main.s", "repeat": R})
-    tp, evs = run_harness(rvh, hc, wd, "runs", timeout_ms=60000)
+    tp, evs = run_harness_par(rvh, hc, wd, "runs", timeout_ms=60000)
     evs = [e if e["ev"] == "runs" else {"ev": "skip", "id": e["id"]} for e in evs]
     # separate processes, every output mode
     cli_texts = (corpus.ORDER_PROGRAMS + corpus.VALUE_PROGRAMS[:3] + texts[:10]) if tier == "quick" else texts[:150] + corpus.ORDER_PROGRAMS
